@@ -156,4 +156,24 @@ def poisonIdsL : List Shape → List PoisonId
   | s :: ss => poisonIds s ++ poisonIdsL ss
 end
 
+/-! ### the checked constructors' duplicate test -/
+
+/-- `utils::ordered_contains_duplicates`: `windows(2).any(addr_eq)` on the sorted list -/
+def adjacentDup : List Nat → Bool
+  | a :: b :: r => a == b || adjacentDup (b :: r)
+  | _ => false
+
+/-- `BoxedLockCollection::try_new` / `RefLockCollection::try_new` return `Some` -/
+def tryNewSorted (W : World) (s : Shape) : Bool :=
+  !adjacentDup ((sortPtrs (getPtrs W s)).map (·.addr))
+
+/-- `retry.rs contains_duplicates`: scan with a hash set of the addresses seen so far -/
+def seenDup : List Nat → List Nat → Bool
+  | [], _ => false
+  | a :: r, seen => seen.contains a || seenDup r (a :: seen)
+
+/-- `RetryingLockCollection::try_new` returns `Some` -/
+def tryNewRetry (W : World) (s : Shape) : Bool :=
+  !seenDup ((getPtrs W s).map (·.addr)) []
+
 end HLV
